@@ -33,6 +33,7 @@ struct thr {
     pthread_t th;
     void *(*fn)(void *); void *arg;
 };
+extern char __executable_start, _end;
 static struct thr T[MAXT];
 static sem_t main_sem;
 static __thread int t_id = -1;
@@ -81,7 +82,7 @@ static void switch_to(int me, int next) {
     S.switches++;
     ihash(((uint64_t)me << 56) ^ ((uint64_t)next << 48) ^ T[me].steps);
     if(T[me].fdepth > 0 && T[next].fdepth > 0) {
-        uint64_t a = T[me].fstack[T[me].fdepth - 1], b = T[next].fstack[T[next].fdepth - 1];
+        uint64_t a = T[me].fstack[T[me].fdepth - 1] - (uintptr_t)&__executable_start, b = T[next].fstack[T[next].fdepth - 1] - (uintptr_t)&__executable_start;
         if(S.n_adjacent < TSL_MAXADJ) { S.adjacent[S.n_adjacent][0] = a; S.adjacent[S.n_adjacent][1] = b; S.n_adjacent++; }
     }
     g_current = next;
